@@ -6,7 +6,9 @@ Import ListNotations.
 Local Open Scope R_scope.
 Lemma C13_misc : C13_misc_stmt.
 Proof.
-  unfold C13_misc_stmt. split; [ | split; [ | split ] ].
+  unfold C13_misc_stmt.
+  do 6 (split; [ intros k a; rrun_unfold; reflexivity | ]).
+  split; [ | split; [ | split ] ].
   - intros k a. rrun_unfold. reflexivity.
   - intros k a. rrun_unfold. reflexivity.
   - intros k F a. unfold p_aabr_map. cbv [run den_nodes den_tree den_node den_atom p_nodes p_tree nth app map tab seq Nat.add]. reflexivity.
